@@ -227,7 +227,7 @@ Example eof_after_drain_nonvacuous :
     /\ avail_data (fbuf p') = 5 /\ fst_ p' = CWriteOpen /\ rw (bi p') = true.
 Proof. eexists. eexists. vm_compute. repeat split; reflexivity. Qed.
 
-(** the client's half-close (after fix d485621): the session stays while the
+(** the client's half-close (after fix 3bf5746): the session stays while the
     backend has not ended its own stream, and once the client's bytes are out its
     end-of-stream is passed on (shutdown(Write) on the backend socket) *)
 Theorem client_halfclose_keeps_session :
